@@ -149,6 +149,14 @@ def _accumulator_0d(A, x):
     return x * s
 
 
+def _const_node_updated(A, x):
+    # a constant NODE (not an independent) that the program updates in place
+    s = A.const(np.array([1.0, 2.0, 4.0]))
+    s *= 0.5
+    s += 1.0
+    return x * s
+
+
 def _inplace_alias(A, x):
     z = x * 1.0
     w = z
@@ -389,6 +397,7 @@ def catalogue():
     add('augmented assignment through a view of a buffer', _inplace_through_view, group='buffer')
     add('augmented assignment through a second name', _inplace_alias, dom='nonzero', group='buffer')
     add('**= through a view of a buffer', _ipow_through_view, group='buffer')
+    add('constant node updated in place', _const_node_updated, group='buffer')
     add('augmented assignment on a 0-d accumulator', _accumulator_0d, group='buffer')
     add('x*x.flat[3]', _flat_read, shape=(2, 2), group='index')
     add('scratch ndarray constant re-used during recording', _scratch_constant, group='buffer')
